@@ -81,6 +81,7 @@ B = Bounded(
 )
 THOROUGH = B.thorough()
 T0 = time.time()
+C0 = time.thread_time()  # budgets in CPU seconds of this thread (independent of machine load)
 BUDGET = 1050 if THOROUGH else 75
 COUNTS, SKIPS, ACTIONS, BODY_RAISED = {}, {}, {}, {}
 LIVE = []  # every armi object created in this run is kept alive here: (object, origin, clone-of or None)
@@ -894,7 +895,7 @@ guarded("copy", check_copies, random.Random(B.rng.randrange(1 << 30)))
 NSC = {"reactor": 9000 if THOROUGH else 520, "generic": 3000 if THOROUGH else 170}
 for world in ("reactor", "generic"):
     for _ in range(NSC[world]):
-        if time.time() - T0 > BUDGET:
+        if time.thread_time() - C0 > BUDGET:
             B.extra["time_budget_hit"] = True
             break
         run_scenario(world, B.rng.randrange(1 << 30))
